@@ -48,6 +48,19 @@ struct %(PTB)s { struct %(TIT)s first; _Bool second; };
 struct %(VIT)s { struct %(VI)s *v; unsigned long idx; };
 struct %(VSO)s { unsigned long size; unsigned long fidx; struct %(SPO)s f; struct %(SPO)s other; };
 struct %(FUN)s { char vf_empty; };
+/* vector<pair<string, shared_ptr<X>>>: a snapshot copied out of objectMap (size + the copy of the focus entry) */
+struct std_vector_%(PSO)s { unsigned long size; _Bool has_f; unsigned long fpos; struct %(PSO)s felem; struct %(PSO)s other; };
+struct gnu_cxx_normal_iterator_%(PSO)s_std_vector_%(PSO)s { struct std_vector_%(PSO)s *v; unsigned long idx; };
+#define std_vector_%(PSO)s__ctor(v) ((v)->size = 0, (v)->has_f = 0, (v)->fpos = 0, (v)->felem.second.p = 0, (v)->other.second.p = 0)
+#define std_vector_%(PSO)s__dtor vf_vps_dtor
+#define std_vector_%(PSO)s__assign__2 vf_vps_assign
+#define std_vector_%(PSO)s__begin__0(it, vv) ((it)->v = (vv), (it)->idx = 0)
+#define std_vector_%(PSO)s__end__0(it, vv) ((it)->v = (vv), (it)->idx = (vv)->size)
+#define gnu_cxx_normal_iterator_%(PSO)s_std_vector_%(PSO)s__op_deref__0 vf_vpsit_deref
+#define gnu_cxx_normal_iterator_%(PSO)s_std_vector_%(PSO)s__op_arrow__0 vf_vpsit_deref
+#define gnu_cxx_normal_iterator_%(PSO)s_std_vector_%(PSO)s__op_inc__0(it) ((it)->idx = (it)->idx + 1, (it))
+#define ext_op_ne__normal_iterator_%(PSO)s_std_vector_%(PSO)s_ref_normal_iterator_%(PSO)s_std_vector_%(PSO)s_ref(a, b) ((a)->idx != (b)->idx)
+#define ext_op_eq__normal_iterator_%(PSO)s_std_vector_%(PSO)s_ref_normal_iterator_%(PSO)s_std_vector_%(PSO)s_ref(a, b) ((a)->idx == (b)->idx)
 struct %(IL)s { int *p; unsigned long n; };
 #define %(OMAP)s__ctor vf_om_ctor
 #define %(OMAP)s__dtor vf_om_dtor
@@ -326,6 +339,28 @@ void vf_vso_push_back(struct %(VSO)s *v, struct %(SPO)s *x)
   v->size = v->size + 1;
 }
 void vf_vso_dtor(struct %(VSO)s *v) { vf_spo_dtor(&v->f); }
+/* ---- vector<pair<string, shared_ptr<X>>>: assign(first, last) copies a range of objectMap ---- */
+void vf_vps_dtor(struct std_vector_%(PSO)s *v) { if (v->has_f) vf_spo_dtor(&v->felem.second); v->has_f = 0; v->size = 0; }
+void vf_vps_assign(struct std_vector_%(PSO)s *v, struct %(OIT)s *a, struct %(OIT)s *b)
+{
+  NEED_LOCK("copying entries out of objectMap");
+  __CPROVER_assert(a->m == b->m && a->idx <= b->idx && b->idx <= a->m->size && vf_oit_valid(a), "[C17] assign() from an invalid objectMap range");
+  vf_vps_dtor(v);
+  if (vf_nondet_bool()) { vf_exc = 1; return; }
+  v->size = b->idx - a->idx;
+  if (a->m->has_f && a->m->fpos >= a->idx && a->m->fpos < b->idx) {
+    v->has_f = 1; v->fpos = a->m->fpos - a->idx; v->felem.first = a->m->felem.first; vf_spo_copy(&v->felem.second, &a->m->felem.second);
+  }
+}
+struct %(PSO)s *vf_vpsit_deref(struct gnu_cxx_normal_iterator_%(PSO)s_std_vector_%(PSO)s *it)
+{
+  __CPROVER_assert(it->idx < it->v->size, "[C17] the end iterator of a snapshot vector is dereferenced");
+  if (it->v->has_f && it->idx == it->v->fpos) return &it->v->felem;
+  it->v->other.first.id = vf_nondet_int();
+  __CPROVER_assume(it->v->other.first.id != vf_fk);
+  it->v->other.second.p = vf_nondet_bool() ? &vf_oobj : (struct vf_sobj *)0;
+  return &it->v->other;
+}
 /* ---- std::function<bool(const shared_ptr<X>&)>: user code, may throw at any call ---- */
 _Bool vf_fun_call(struct %(FUN)s *f, struct %(SPO)s *arg)
 {
